@@ -234,10 +234,14 @@ class Ctx:
 
 
 def load_findings(prop: str):
-    if not FINDINGS.exists():
-        return []
-    data = json.loads(FINDINGS.read_text())
-    return [f for f in data.get("findings", []) if f.get("property") == prop and not f.get("fixed")]
+    """Entries of known_findings.json for `prop`.  VERIF_KF=<file> (self-tests only) merges extra entries for that run."""
+    out = []
+    files = [FINDINGS] + ([Path(os.environ["VERIF_KF"])] if os.environ.get("VERIF_KF") else [])
+    for fp in files:
+        if fp.exists():
+            data = json.loads(fp.read_text())
+            out += [f for f in data.get("findings", []) if f.get("property") == prop and not f.get("fixed")]
+    return out
 
 
 def finding_matches(f: dict, bad: tuple) -> bool:
